@@ -565,6 +565,26 @@ func c12NilableDerefs(c *Ctx) {
 				c.OK(key, rule2, w.InstrPos(call))
 				continue
 			}
+			// the nil test computed by a predicate helper (`if !v.canCheckRevocation() { fail }`): suppose the field is nil
+			// at the call; with it and the fields the guards already know to be nil all nil, the helper's verdict is fixed
+			// (abstract evaluation of the helper, c05PredicateEdges) and the edges that verdict excludes are removed — if the
+			// call cannot be reached then, the field is not nil here. (The verifier's fields are set by the constructor only.)
+			{
+				recvs := map[string]bool{d: true}
+				for l := range g {
+					if strings.HasPrefix(l, "EQ(") && strings.HasSuffix(l, ",nil)") {
+						recvs[strings.TrimSuffix(strings.TrimPrefix(l, "EQ("), ",nil)")] = true
+					}
+				}
+				cut := map[edgeKey]bool{}
+				for e := range c05PredicateEdges(w, fi, recvs) {
+					cut[e] = true
+				}
+				if len(cut) > 0 && call.Block().Index != 0 && !fi.reachHit(entryState(), cut, blocksOf(call)) {
+					c.OK(key, rule2, w.InstrPos(call))
+					continue
+				}
+			}
 			c.Bad(key, rule2, w.InstrPos(call), "call on "+d+" which may be nil (a verifier built without it); guards: "+summarizeLabels(g, 4))
 		}
 	}
